@@ -26,7 +26,7 @@ func init() {
 			"LIKE patterns contain no backslash; non-ASCII characters in data are caseless, so ASCII folding is the case-insensitivity asserted",
 			"numeric literals are rendered without exponent; the reference model (internal/ref) is trusted",
 		},
-		Floor:         featList("op.eq", "op.ne", "op.lt", "op.le", "op.gt", "op.ge", "and", "or", "not", "in", "notin", "in.subquery", "between", "notbetween", "like", "notlike", "isnull", "isnotnull", "istrue", "isfalse", "law.partition", "law.notin", "law.between"),
+		Floor:         featList("op.eq", "op.ne", "op.lt", "op.le", "op.gt", "op.ge", "and", "or", "not", "in", "notin", "in.subquery", "between", "notbetween", "like", "notlike", "isnull", "isnotnull", "istrue", "isfalse", "law.partition", "law.notin", "law.between", "native-int", "in.subquery.correlated"),
 		MinNontrivial: 50,
 		Phases: []fw.Phase{
 			{Name: "pred", N: func(t fw.Tier) int { return pick(t, 16000, 600000) }, Run: c01Pred},
@@ -69,7 +69,7 @@ func c01Render(c *fw.Case, p gen.Pred, alias string) (string, []string) {
 
 func c01Pred(c *fw.Case) {
 	t, other := c01Tables(c)
-	g := &gen.PredGen{R: c.R, T: t, Other: other, MaxDepth: pick(c.Tier, 4, 7)}
+	g := &gen.PredGen{R: c.R, T: t, Other: other, MaxDepth: pick(c.Tier, 4, 7), Correlate: true}
 	if c.Idx < 3*len(c01Forced) {
 		g.Force = c01Forced[c.Idx%len(c01Forced)]
 	}
@@ -99,6 +99,11 @@ func c01Pred(c *fw.Case) {
 		}
 	}
 	doc := DocOf(t, other)
+	if c.Idx%7 == 3 || c.Chance(0.1) {
+		// one numeric column arrives as natively typed Go integers
+		nativize(c, doc["t1"].([]any), gen.Pick(c.R, []string{"n1", "n2"}))
+		feats = append(feats, "native-int")
+	}
 	o := Run(doc, sql)
 	c.Feature(feats...)
 	sample := map[string]any{"sql": sql, "table_rows": len(t.Rows), "expected_rids": ridsOfRows(want)}
